@@ -1181,7 +1181,11 @@ impl Gc {
         D::Value: Sized + Any,
     {
         let size = def.size();
-        let needed = self.allocated_memory.saturating_add(size);
+        // The header of the object is accounted to this heap as well
+        let needed = self
+            .allocated_memory
+            .saturating_add(GcHeader::value_offset())
+            .saturating_add(size);
         if needed >= self.memory_limit {
             return Err(Error::OutOfMemory {
                 limit: self.memory_limit,
